@@ -24,6 +24,8 @@ def gen_case(rng):
     if case['spec'].get('omen') and rng.random() < 0.6:
         # omen_keyspace.txt is informational (status report): rulesets of older trainers / hand-made ones carry numbers that are too small or too large
         case['spec']['omen']['keyspace'] = [[l, max(0, k + rng.choice([-3, -1, 0, 1, 5, -k, k]))] for l, k in case['spec']['omen']['keyspace']]
+    if rng.random() < 0.25:
+        rulesets.legacy_variant(rng, case['spec'])         # ruleset in a legacy code page; some upper-cased guesses fall outside it
     case['flags'] = {'skip_brute': rng.random() < 0.25, 'all_lower': rng.random() < 0.25}
     return case
 
